@@ -222,6 +222,7 @@ impl World {
                 Ok(json!({}))
             }
             "assert.eq" => self.op_assert(&op),
+            "assert.last" => self.op_assert_last(&op),
             n if n.starts_with("sm2.") => crate::ops_sm2::exec(self, n, &op),
             n if n.starts_with("zuc.") => crate::ops_zuc::exec(self, n, &op),
             n if n.starts_with("sm9.") => crate::ops_sm9::exec(self, n, &op),
@@ -278,6 +279,23 @@ impl World {
             format!("{what}: got {} want {}", a.as_ref().map(hex::encode).unwrap_or("<nothing>".into()), b.as_ref().map(hex::encode).unwrap_or("<nothing>".into()))
         });
         Ok(json!({"ok": ok}))
+    }
+
+    /// Oracle on the result summary of the previous op (e.g. a corpus item must have been accepted).
+    fn op_assert_last(&mut self, op: &Value) -> R<Value> {
+        let field = gs(op, "field")?;
+        let want = gs(op, "equals")?;
+        let got = self.last.get(field).and_then(|v| v.as_str()).unwrap_or("<none>").to_string();
+        let property = gs(op, "property")?.to_string();
+        let oracle = gs(op, "oracle")?.to_string();
+        let what = gs_opt(op, "what").unwrap_or("").to_string();
+        let case = fnv(&[b"assert.last", op.to_string().as_bytes(), self.last.to_string().as_bytes()]);
+        let key = json!({"entry": gs_opt(op, "entry").unwrap_or("session"), "class": gs_opt(op, "class").unwrap_or("any"), "outcome": got});
+        let ok = got == want;
+        let keep = self.last.clone();
+        self.check(&property, &oracle, ok, case, key, || format!("{what}: previous op ended with {field}={got}, expected {want}"));
+        // transparent for the next assert
+        Ok(keep)
     }
 
     /// A party keeps its own copy of something it received (storage slot).
